@@ -167,6 +167,17 @@ def gen(rng):
         steps.append(['f', tdir + '/info/nospacelink.trashinfo', G.fmt_info(TG.pct(home + '/w/nospacelink'), '2021-01-03T00:00:00'), 0o600])
         faults.append({'kind': 'cond', 'what': 'name_errno', 'ops': ['remove', 'unlink'], 'basename': 'nospacelink', 'errno': rng.choice([E_.ENOSPC, E_.EDQUOT])})
         names.append('nospacelink')
+    if rng.random() < 0.06:
+        # a payload that is an EMPTY directory without read permission (chmod a-r cache; trash-put cache): an ordinary user cannot
+        # list it (emulated: EACCES on opening / listing it), rmdir would work.  However it is got rid of - or not -, files/ itself,
+        # the trash directory and what lies above stay
+        tdir = rng.choice(locs)[0]
+        steps.append(['d', tdir + '/files', 0o700])
+        steps.append(['d', tdir + '/info', 0o700])
+        steps.append(['d', tdir + '/files/noread', 0o300])
+        steps.append(['f', tdir + '/info/noread.trashinfo', G.fmt_info(TG.pct(home + '/w/noread'), '2021-01-04T00:00:00'), 0o600])
+        faults.append({'kind': 'cond', 'what': 'dir_not_readable', 'dir': '%RESOLVE%' + tdir + '/files/noread'})
+        names.append('noread')
     abyss = rng.random() < 0.004
     if abyss:
         # an abyss: a trashed tree nested deeper than the interpreter's recursion limit, with links to the outside at its top
